@@ -217,7 +217,8 @@ KnownDecimals == {<<48>>,
                   <<49, 50, 51, 52, 53, 54, 55, 56, 57, 48, 49, 50, 51, 52, 53, 54, 55, 56, 57, 48, 49, 50, 51, 52, 53, 54, 55, 56, 57, 48>>,
                   <<49, 69, 45, 49, 48, 48>>,
                   <<49, 101, 43, 49, 48, 48>>,
-                  <<48, 46, 48, 48, 48, 48, 48, 49>>}
+                  <<48, 46, 48, 48, 48, 48, 48, 49>>,
+                  <<49, 46, 53, 48>>, <<48, 46, 48, 48>>, <<49, 48, 48>>, <<50, 46, 53, 48, 48>>}
 
 -----------------------------------------------------------------------------
 (* Stream state: the string table.  ids are positions, from 1. *)
